@@ -6998,3 +6998,49 @@ def la4(m, run, rule='LA4.pivoting-solvers-on-all-small-01-matrices'):
                'every returned result satisfies its defining equation (%d of the matrices raise instead of returning)' % raised[name] if not bad else
                'A = %s: %s   [%d of %d matrices; %d more raise instead of returning]' % ([[str(x) for x in r] for r in bad[0][0]], bad[0][1], len(bad), len(mats), raised[name]),
                'geomdl/linalg.py:%d in %s' % (fi.node.lineno, fi.key))
+
+
+# ====================================================================================== C03: generated knot vectors
+def kg2(m, run, rule='KG2.generated-knot-vectors-are-valid'):
+    """KG2: knotvector.generate interpreted with exact arithmetic (linspace interpreted too) for degrees 1 .. 4, degree + 1 .. degree + 7
+    control points, clamped and unclamped: the vector has num_ctrlpts + degree + 1 knots, is non-decreasing, runs from 0 to 1, a clamped
+    one starts and ends with exactly degree + 1 equal knots and is strictly increasing in between, an unclamped one is strictly
+    increasing throughout; knotvector.check (interpreted) accepts it"""
+    from fractions import Fraction as F
+    fg, fc = m.func('knotvector.generate'), m.func('knotvector.check')
+    bad, cnt = [], 0
+    for p in range(1, 5):
+        for n in range(p + 1, p + 8):
+            for clamped in (True, False):
+                cnt += 1
+                sk = SK(m, {})
+                sk.exact = True
+                sk.text = True            # (linspace rounds through a formatted string)
+                why = None
+                try:
+                    kv = sk.call(fg, [p, n], {'clamped': clamped})
+                    num = lambda x: x.val if isinstance(x, Tok) and x.kind == 'PH0' and x.val is not None else x          # (a literal fill is its number)
+                    kv = [num(x) for x in kv] if isinstance(kv, list) else kv
+                    vals = [F(x) for x in kv] if isinstance(kv, list) and not any(isinstance(x, Tok) for x in kv) else None
+                    if vals is None:
+                        why = 'returns %r' % (kv,)
+                    elif len(vals) != n + p + 1:
+                        why = 'returns %d knots, m = n + p + 1 needs %d' % (len(vals), n + p + 1)
+                    elif vals[0] != 0 or vals[-1] != 1:
+                        why = 'runs from %s to %s, not from 0 to 1' % (vals[0], vals[-1])
+                    elif any(a > b for a, b in zip(vals, vals[1:])):
+                        why = 'is not non-decreasing'
+                    elif clamped and (vals[:p + 1] != [0] * (p + 1) or vals[-(p + 1):] != [1] * (p + 1) or any(a >= b for a, b in zip(vals[p:-p], vals[p + 1:len(vals) - p]))):
+                        why = 'is not clamped: %s' % [str(x) for x in vals]
+                    elif not clamped and any(a >= b for a, b in zip(vals, vals[1:])):
+                        why = 'an unclamped vector has repeated knots: %s' % [str(x) for x in vals]
+                    elif sk.call(fc, [p, list(kv), n], {}) is not True:
+                        why = 'knotvector.check rejects it'
+                except Violation as v:
+                    why = '%s %s' % (v.msg, v.where())
+                except Unsupported as ex:
+                    raise AnalysisError('%s: interpreter met an unsupported construct: %s' % (fg.key, ex))
+                if why:
+                    bad.append(('degree %d, %d control points, clamped=%s' % (p, n, clamped), why))
+    run.ob(rule, '%s :: %d (degree, count, clamped) cases' % (fg.key, cnt), not bad, 'n + p + 1 knots on [0, 1], clamped ends of multiplicity p + 1, accepted by check' if not bad else
+           '%s: %s   [%d of %d]' % (bad[0][0], bad[0][1], len(bad), cnt), 'geomdl/knotvector.py:%d in %s' % (fg.node.lineno, fg.key))
